@@ -23,6 +23,7 @@ def codeCfg : Cfg where
   waitOnErrs := Gen.Cli.signalErrsBranchWaits
   notified s := Gen.Cli.notifiedSignals.contains (signo s)
   cancels s := Gen.Cli.signalCases.any fun c => c.1 == signo s && c.2.1
+  waitOnFail := Gen.Cli.errsFirstBranchWaits
 
 /-- after SIGINT/SIGTERM the engine's tasks are awaited before the process exits -/
 theorem cli_waits : Gen.Cli.signalErrsBranchWaits = true := by decide
@@ -39,7 +40,7 @@ theorem cli_notified : ∀ s, codeCfg.notified s = true := by
 
 /-- the code is a good configuration: waits, notifies both signals, cancels on both -/
 theorem cli_good : Pandora.Proofs.C06Cli.Good codeCfg :=
-  ⟨cli_waits, cli_notified, by intro s; cases s <;> decide⟩
+  ⟨cli_waits, cli_notified, by intro s; cases s <;> decide, cli_cancels.2⟩
 
 /-- every interrupt timeout is at least 3 s — the harness treats an exit through the timeout earlier than 2.5 s after
 the signal as conclusive, and the assumption "the engine's tasks end within the interrupt timeout" is only
